@@ -243,3 +243,20 @@ def cached_model_check(name, module, cfg, tier, workers=8, timeout=3600, xmx="8g
     st = {"generated": res["generated"], "distinct": res["distinct"], "dt": round(res["dt"], 1), "cfg": cfg, "module": module}
     json.dump(st, open(p, "w"))
     return st
+
+
+def cached_model_refutation(name, module, cfg, tier, invariant, workers=4, timeout=1800, xmx="4g"):
+    """A configuration that describes a DEFECTIVE variant of the design: TLC must find the invariant violated.  A run that
+    finds no error means the model cannot tell the variants apart (vacuous) -- a tool error."""
+    key = c.spec_hash(module, name, cfg, tier)
+    p = os.path.join(c.OUT, "cache", f"mcref-{name}-{tier}-{key}.json")
+    os.makedirs(os.path.dirname(p), exist_ok=True)
+    if os.path.exists(p):
+        return json.load(open(p))
+    res = c.tlc(module, cfg=cfg, env={"VERIF_TIER": tier}, workers=workers, timeout=timeout, xmx=xmx, tag=name)
+    out = res.get("out", "")
+    if f"Invariant {invariant} is violated" not in out:
+        raise c.ToolError(f"{module}/{cfg}: expected a counterexample to {invariant}, TLC reported none:\n" + out[-1500:])
+    st = {"cfg": cfg, "module": module, "refuted": invariant, "dt": round(res["dt"], 1)}
+    json.dump(st, open(p, "w"))
+    return st
